@@ -140,6 +140,8 @@ impl<T: Clone> Strided<T> {
 
 /// f64 as three integers (22 + 21 + 21 bits): equality of triples is equality of bits.
 pub fn bits3(x: f64) -> Value {
+    // every NaN is the same value for the purposes of "bit for bit" (sign and payload of a NaN are not part of any contract)
+    if x.is_nan() { return json!([-1, -1, -1]); }
     let b = x.to_bits();
     json!([(b >> 42) as i64, ((b >> 21) & 0x1f_ffff) as i64, (b & 0x1f_ffff) as i64])
 }
